@@ -54,6 +54,12 @@ func (f *Min) Call(s *slip.Scope, args slip.List, depth int) slip.Object {
 	}
 	pos++
 	for ; pos < len(args); pos++ {
+		if cmp, ok := exactCompare(min, args[pos]); ok {
+			if 0 < cmp {
+				min = args[pos]
+			}
+			continue
+		}
 		arg, mx := slip.NormalizeNumber(args[pos], min)
 		switch ta := arg.(type) {
 		case slip.Fixnum:
